@@ -82,7 +82,22 @@ def generic(mod, pid, args, seed, t0):
   T = mod.build(repo) if inspect.signature(mod.build).parameters else mod.build()
   tmo = args.timeout or (120 if args.tier == 'thorough' else 30)
   try:
-    per_fn, canaries, wall, ex = run.verify_theory(T, repo, timeout_s=tmo)
+    if isinstance(T, list):
+      # several theories for one property (different models of the same classes): verified one after the other
+      Ts = T
+      per_fn, canaries, wall, ex = [], [], 0.0, None
+      for Ti in Ts:
+        pf, cn, w, ex_i = run.verify_theory(Ti, repo, timeout_s=tmo)
+        per_fn += pf
+        canaries += cn
+        wall += w
+        if ex is None:
+          ex = ex_i
+        else:
+          ex.missing_anchors += ex_i.missing_anchors
+      T = _Merged(Ts)
+    else:
+      per_fn, canaries, wall, ex = run.verify_theory(T, repo, timeout_s=tmo)
   except (ContractMisfit, Unsupported) as e:
     # The code under contract changed shape (new loop without invariant, construct outside the
     # subset, ...): no obligation can be generated, so nothing is proved or refuted.  The contract
@@ -229,6 +244,21 @@ def generic(mod, pid, args, seed, t0):
   print('%s: %d obligations, %d discharged, %d function(s), exit %d, %.1fs' % (
       pid, len(obls), ev['coverage']['discharged'], len(fns), exit_code, time.time() - t0))
   return exit_code
+
+
+class _Merged:
+  """View of several theories of one property for reporting."""
+
+  def __init__(self, Ts):
+    self.contracts = {}
+    self.assumptions = []
+    for i, t in enumerate(Ts):
+      for k, c in t.contracts.items():
+        self.contracts[(i,) + tuple(k)] = c
+      for a in t.assumptions:
+        if a not in self.assumptions:
+          self.assumptions.append(a)
+    self.axioms_contradictory = any(getattr(t, 'axioms_contradictory', False) for t in Ts)
 
 
 def proof_unavailable(pid, repo, args, seed, err):
